@@ -266,6 +266,8 @@ def mapCoordinates (spl : Spl) (isBool : Bool) (im : Img2) (pts : PtArr) (mode :
     V2 → Rat :=
   fun p => samplerOf spl order (effMode isBool mode cval) im (pts p)
 def sampledAllTrue (_s : Sampled) : Bool := true
+/-- `points.shape[0]`: how many points an array of points holds (only the length of the output buffer: unused) -/
+def nPointsOf (_p : PtArr) : Nat := 0
 def indicesForImageOfShape (_s : IVec) : PtArr := id
 def applyPts (t : TObj) (pts : PtArr) (_batch : Option Nat) : PtArr := fun p => t.app (pts p)
 /-- `sampled.reshape((n_channels,) + template_shape)` -/
